@@ -295,6 +295,19 @@ theorem boundary_slice_offset_consistent (x : Arr Bool) (p0 p1 : Int) (sl : (Int
 
 example : boundarySlice (⟨3, 4, fun i j => decide (i = 1 ∧ j = 2)⟩ : Arr Bool) 1 0 = some ((0, 3), (2, 3)) := by decide
 
+/-- **the bounding box does not depend on the physical scale of the data**: multiplying every sample and the threshold by the same
+positive factor leaves the thresholded mask — hence `boundary`, `boundary_slice` and the offset — unchanged (no absolute tolerance may
+enter the comparison `x > threshold`) -/
+theorem boundary_scale_invariant {F : Type} [Field F] [LinearOrder F] [IsStrictOrderedRing F] (x : Arr F) (thr k : F) (hk : 0 < k) :
+    gtMask ({ s0 := x.s0, s1 := x.s1, get := fun i j => x.get i j * k } : Arr F) (thr * k) = gtMask x thr ∧
+    boundary (gtMask ({ s0 := x.s0, s1 := x.s1, get := fun i j => x.get i j * k } : Arr F) (thr * k)) = boundary (gtMask x thr) := by
+  have h : gtMask ({ s0 := x.s0, s1 := x.s1, get := fun i j => x.get i j * k } : Arr F) (thr * k) = gtMask x thr := by
+    unfold gtMask
+    simp only [Arr.mk.injEq, true_and]
+    funext i j
+    exact decide_eq_decide.2 (mul_lt_mul_iff_left₀ hk)
+  exact ⟨h, by rw [h]⟩
+
 /-! ## rebinning and centroid -/
 
 /-- **integer-factor rebinning preserves the sum** (whenever `reshape` accepts, i.e. the factor divides both axes) -/
